@@ -43,8 +43,10 @@ TRUSTED_BASE = [
 ASSUMPTIONS = [
     'source and target hub have the same hardware: the same non-virtual ports with the same capabilities, and read-only '
     'ports read the same input',
-    'slave devices are restored as disabled devices (enabled: false); adding an enabled device needs the device on the '
-    'network and is outside the model and the harness',
+    'slave devices: disabled entries as they are; enabled entries against SIMULATED devices (Slave.api_call answers GET /device / '
+    'GET /ports from a table keyed by host, other hosts refuse the connection; the listen and poll loops are idled, so a live '
+    'device stays online: false; PUT /devices does not wait for devices to come online); online and last_sync are not compared; '
+    'renamed devices, provisioning of live devices and slave ports are outside the model',
     'numbers in documents are multiples of 1/4; non-ASCII strings stay below the length limits in bytes',
     'a malformed document has one defect per entry (jsonschema chooses among several errors by a heuristic that is not modelled)',
     'the value of a port is compared only when it has no expression and its transforms are inverse to each other at that value '
@@ -1071,7 +1073,7 @@ LEVEL_TEXT = (
 LEVEL_NOTE = (
     'Trusted: Coq kernel incl. vm_compute; the correspondence harness (worker process, teardown between configurations, harness '
     'port drivers, settle loop); expression parsing/printing and transform evaluation enter the model as tables filled by the real '
-    'code; jsonschema and asyncio task order are modelled, not verified; slaves only as disabled devices. The acceptance theorems '
+    'code; jsonschema and asyncio task order are modelled, not verified; live slave devices are simulated at Slave.api_call. The acceptance theorems '
     'have boolean premises on the source hub (shown to hold for the example hubs by vm_compute); that reachable hubs satisfy them '
     'rests on the API validating what it stores (C04 for the absence of loops) and is probed by the oracle: an unaltered backup '
     'that is refused for any reason other than the virtual-port limit is a violation. No axioms.'
